@@ -145,12 +145,18 @@ class _Files:
         return os.path.join(self.dir, name)
 
     def snapshot(self):
+        """every file with its text, and every directory (as 'name/') - nothing may appear that the call does not account for"""
         import os
         out = []
-        for n in sorted(os.listdir(self.dir)):
-            with open(os.path.join(self.dir, n), "rb") as f:
-                out.append({"n": cps(n), "t": cps(f.read().decode("utf-8"))})
-        return out
+        for root, dirs, names in os.walk(self.dir):
+            rel = os.path.relpath(root, self.dir)
+            pre = "" if rel == "." else rel.replace(os.sep, "/") + "/"
+            for d in sorted(dirs):
+                out.append({"n": cps(pre + d + "/"), "t": []})
+            for n in sorted(names):
+                with open(os.path.join(root, n), "rb") as f:
+                    out.append({"n": cps(pre + n), "t": cps(f.read().decode("utf-8"))})
+        return sorted(out, key=lambda e: e["n"])
 
     def close(self):
         import shutil
@@ -162,7 +168,7 @@ def file_step(rng, sf, files, log, evs):
     -> the (possibly new) simfile object"""
     import os
     import simfile
-    names = sorted(os.listdir(files.dir))
+    names = sorted(n for n in os.listdir(files.dir) if os.path.isfile(os.path.join(files.dir, n)))
     q = rng.random()
     vals = "".join(v or "" for v in sf.values())
     if q < 0.35 or not names:
@@ -208,6 +214,12 @@ def file_step(rng, sf, files, log, evs):
         out = rng.choice(free) if rng.random() < 0.4 else None
         bak = rng.choice([n for n in free if n != out]) if rng.random() < 0.5 else None
         body = rng.choice(["normal", "normal", "normal", "CancelMutation", "KeyError", "ZeroDivisionError"])
+        if body != "normal" and rng.random() < 0.4:
+            # destinations inside a directory that does not exist: a block that is cancelled or raises creates nothing at all
+            if out and rng.random() < 0.7:
+                out = "newdir/" + out
+            if bak:
+                bak = rng.choice(["backups/", "newdir/", "a/b/"]) + bak
         edits = []
         kw = {}
         if out:
@@ -826,7 +838,7 @@ MC_RUNS = {  # pid -> (quick runs, thorough runs): (fmt0, focus, MaxItems, MaxCh
     "C18": ([("sm", "edit", 2, 1, 4), ("ssc", "edit", 2, 1, 4)], [("sm", "edit", 3, 2, 5), ("ssc", "edit", 3, 1, 5)]),
     "C04": ([("sm", "save", 2, 1, 4), ("ssc", "save", 2, 1, 4)], [("sm", "save", 3, 2, 5), ("ssc", "save", 3, 1, 5)]),
     "C16": ([("sm", "tossc", 2, 1, 4)], [("sm", "tossc", 3, 1, 5)]),
-    "C17": ([("ssc", "tosm", 2, 1, 3)], [("ssc", "tosm", 2, 1, 5)]),
+    "C17": ([("ssc", "tosm", 2, 1, 3)], [("ssc", "tosm", 2, 1, 4)]),
     "C13": ([("sm", "timing", 2, 1, 4), ("ssc", "timing", 2, 1, 4)], [("sm", "timing", 3, 1, 5), ("ssc", "timing", 3, 1, 5)]),
     "C15": ([("ssc", "timing", 3, 1, 4)], [("ssc", "timing", 3, 1, 5)]),
     "C07": ([("sm", "edit", 1, 1, 3), ("ssc", "edit", 1, 1, 3)], [("sm", "edit", 2, 2, 4), ("ssc", "edit", 2, 1, 4)]),
